@@ -88,6 +88,8 @@ FUNCTIONS = [
      ['mode', 'storage']),
     ('sql_update_keys', 'dataflows.processors.dumpers.to_sql', ['SQLDumper', 'process_resource', '@if:0', '@else', '@if:2'],
      ['mode', 'converted_resource', 'schema_descriptor', 'update_keys']),
+    # concatenate: the source-field -> target-field mapping
+    ('concat_mapping_loop', 'dataflows.processors.concatenate', ['concatenate', 'func', '@for:0'], ['fields', 'field_mapping']),
     ('flow_chain_body', 'dataflows.base.flow', ['Flow', '_chain', '@for:0', '@body']),
     ('flow_preprocess', 'dataflows.base.flow', ['Flow', '_preprocess_chain'], ['self.chain']),
     ('checkpoint_handle', 'dataflows.processors.checkpoint', ['checkpoint', 'handle_flow_checkpoint'], ['self.steps']),
